@@ -7,11 +7,13 @@ mod c07;
 mod c10;
 mod c11;
 mod c12;
+mod c13;
 mod c14;
 mod c16;
 mod interp;
 mod craft;
 mod gen_ss;
+mod hs;
 mod session;
 mod ssudp;
 mod stream;
@@ -48,6 +50,7 @@ fn main() {
                 "C10" => c10::generate(&mut s, tier, &mut rng),
                 "C11" => c11::generate(&mut s, tier, &mut rng),
                 "C12" => c12::generate(&mut s, tier, &mut rng),
+                "C13" => c13::generate(&mut s, tier, &mut rng),
                 "C14" => c14::generate(&mut s, tier, &mut rng),
                 "C16" => c16::generate(&mut s, tier, &mut rng),
                 _ => {
